@@ -2,6 +2,7 @@ import FxVerif.Model.C17
 import FxVerif.Model.C17Machine
 import FxVerif.Model.C17Float
 import FxVerif.Model.C17Sort
+import FxVerif.Model.C17Ack
 import FxVerif.Model.Util
 /-! line-protocol driver for the C17 models: `lake env lean --run Driver/C17.lean < ops.txt`
 
@@ -31,6 +32,11 @@ ops:
   sort for the regenerated comparator (`meetsSortContract missedLe`), else `not-a-permutation` / `inversion`;
 * `oracleset <addr:power,…>` — answers the addresses in the order `NewOracleSet` stores the members (`sortMembers`: the
   regenerated comparator program of `BridgeValidators.Less`, interpreted).
+* `ack <amount> <spelling> <name:value;…|->` — the IBC middleware's `OnAcknowledgementPacket` for acknowledgement bytes whose
+  top-level JSON members are these (spelling 0 = exactly what `json.Marshal` writes, else any other byte string for the same
+  members): the REGENERATED statement program interpreted under the alternating schedule; answers `ok refund=<n>` or
+  `err:<kind> refund=0` (kinds: unmarshal, not-canonical, …) — `refund` = what the ICS-20 application returned
+  from the escrow account.
 -/
 open FxVerif FxVerif.Util FxVerif.Model.C17
 
@@ -134,6 +140,17 @@ def step (st : Unit) (line : String) : Unit × String :=
       let viaNS := (sortMembers (l.map fun e => ⟨e.2, e.1⟩)).map (·.str)
       if viaRec == viaNS then (st, showList viaRec) else (st, "model-disagreement")
     | none => (st, "bad-op")
+  | ["ack", amount, spelling, ms] =>
+    let parseMember (e : String) : Option (String × String) :=
+      match e.splitOn ":" with
+      | [n, v] => some (n, v)
+      | _ => none
+    match amount.toNat?, spelling.toNat?, (if ms == "-" then some [] else (ms.splitOn ";").mapM parseMember) with
+    | some amount, some spelling, some members =>
+      match runAck ackSteps Sched.alt ⟨0, 0, 0, 0, 0⟩ amount ⟨members, spelling⟩ with
+      | (s', none) => (st, s!"ok refund={s'.bankRefund}")
+      | (s', some e) => (st, s!"err:{e} refund={s'.bankRefund}")
+    | _, _, _ => (st, "bad-op")
   | ["powerdiff", b, "|", c] =>
     match parsePairs b, parsePairs c with
     | some b, some c => (st, toString (powerDiffNumerator b c))
